@@ -91,12 +91,22 @@ def rule_implicit_wiring(rep: Report, repo: Repo):
         env = env_at(c, f)
         return [rtext(a, env) for a in c.args]
     H0 = "hamiltonian[(0,) * hamiltonian.n_infinite]"
+
+    def bound(c, callee):
+        """parameter -> resolved argument text, whether the argument is passed by position or by keyword"""
+        g = repo.find(f"{MOD}::{callee}", RULE)
+        params = [a_.arg for a_ in g.args.args]
+        if len(c.args) > len(params) or any(isinstance(a_, ast.Starred) for a_ in c.args):
+            raise AnalysisError(RULE, f"call of {callee}: arguments not understood")
+        return {**dict(zip(params, pos(c))), **kw(c)}
     c = calls.get("solve_sylvester_direct", [])
-    ok = len(c) == 1 and pos(c[0]) in ([H0, "list(subspace_eigenvectors)"], [H0, "subspace_eigenvectors"]) \
-        and kw(c[0]).get("nonhermitian") == "not hermitian"
+    b_ = bound(c[0], "solve_sylvester_direct") if len(c) == 1 else {}
+    ok = len(c) == 1 and b_.get("h_0") == H0 and b_.get("eigenvectors") in ("list(subspace_eigenvectors)", "subspace_eigenvectors") \
+        and b_.get("nonhermitian") == "not hermitian"
     rep.check(ok, RULE, f"{MOD}::block_diagonalize direct solver gets H_0, the (R, L) subspaces and nonhermitian = not hermitian", "", loc(c[0] if c else f))
     c = calls.get("solve_sylvester_KPM", [])
-    ok = len(c) == 1 and pos(c[0]) == [H0, RS] and kw(c[0]).get("solver_options") == "solver_options"
+    b_ = bound(c[0], "solve_sylvester_KPM") if len(c) == 1 else {}
+    ok = len(c) == 1 and b_.get("h_0") == H0 and b_.get("subspace_eigenvectors") == RS and b_.get("solver_options") == "solver_options"
     rep.check(ok, RULE, f"{MOD}::block_diagonalize KPM solver gets H_0 and the explicit subspaces", "", loc(c[0] if c else f))
     c = calls.get("operator_to_BlockSeries", [])
     k = kw(c[0]) if c else {}
